@@ -3,8 +3,11 @@
  * Counts write/pwrite/fsync/fdatasync/ftruncate/unlink/rename calls that touch files under an armed
  * path prefix and, at call number K, either _exit(137)s before the call or performs a torn write (a
  * page-aligned prefix of the buffer, what a fatal signal can leave of a large write) and _exit(137)s.
- * Unarmed (the default) it only forwards.  Armed per forked child through ctypes: fsv_arm(prefix, K, torn).
+ * Modes 2 and 3 inject disk errors instead of a crash: mode 2 fails call K once with EIO, mode 3 is a
+ * full disk - from call K on every write/pwrite/ftruncate fails with ENOSPC (the process lives on).
+ * Unarmed (the default) it only forwards.  Armed per forked child through ctypes: fsv_arm(prefix, K, mode).
  */
+#include <errno.h>
 #define _GNU_SOURCE
 #include <dlfcn.h>
 #include <fcntl.h>
@@ -16,7 +19,7 @@
 #include <sys/types.h>
 #include <unistd.h>
 
-static volatile long cnt = 0, crash_at = -1;
+static volatile long cnt = 0, crash_at = -1, failed = 0;
 static volatile int armed = 0, torn = 0;
 static char prefix[PATH_MAX];
 static size_t prefix_len = 0;
@@ -25,8 +28,9 @@ static int trace_fd = -1;
 void fsv_arm(const char *p, long k, int t) {
   strncpy(prefix, p, sizeof(prefix) - 1);
   prefix_len = strlen(prefix);
-  crash_at = k; cnt = 0; torn = t; armed = 1;
+  crash_at = k; cnt = 0; torn = t; failed = 0; armed = 1;
 }
+long fsv_failed(void) { return failed; }
 void fsv_disarm(void) { armed = 0; }
 long fsv_count(void) { return cnt; }
 void fsv_trace(int fd) { trace_fd = fd; }
@@ -50,10 +54,13 @@ ssize_t syscall_write(int fd, const void *b, size_t n);
 static void note(const char *what, long n) {
   if (trace_fd >= 0) { char b[96]; int l = snprintf(b, sizeof b, "%ld %s %ld\n", cnt, what, n); if (l > 0) { ssize_t r = syscall_write(trace_fd, b, l); (void)r; } }
 }
-/* returns 1 when the crash point is this call */
-static int hit(const char *what, long n) {
+/* returns 1 when the crash point is this call, 2 when this call is to fail with errno set */
+static int hit(const char *what, long n, int space) {
   cnt++;
   note(what, n);
+  if (crash_at < 0) return 0;
+  if (torn == 2) { if (cnt == crash_at) { failed++; errno = EIO; return 2; } return 0; }
+  if (torn == 3) { if (cnt >= crash_at && space) { failed++; errno = ENOSPC; return 2; } return 0; }
   return cnt == crash_at;
 }
 
@@ -65,7 +72,9 @@ ssize_t syscall_write(int fd, const void *b, size_t n) {
 
 ssize_t write(int fd, const void *buf, size_t n) {
   if (!real_write) real_write = dlsym(RTLD_NEXT, "write");
-  if (fd_under_prefix(fd) && hit("write", (long)n)) {
+  int h = fd_under_prefix(fd) ? hit("write", (long)n, 1) : 0;
+  if (h == 2) return -1;
+  if (h) {
     if (torn) { size_t m = n > 4096 ? (n / 2 / 4096) * 4096 : n / 2; if (m) { ssize_t r = real_write(fd, buf, m); (void)r; } }
     _exit(137);
   }
@@ -75,7 +84,9 @@ static ssize_t do_pwrite(int fd, const void *buf, size_t n, off_t off) {
   static ssize_t (*real)(int, const void *, size_t, off_t) = 0;
   if (!real) real = dlsym(RTLD_NEXT, "pwrite64");
   if (!real) real = dlsym(RTLD_NEXT, "pwrite");
-  if (fd_under_prefix(fd) && hit("pwrite", (long)n)) {
+  int h = fd_under_prefix(fd) ? hit("pwrite", (long)n, 1) : 0;
+  if (h == 2) return -1;
+  if (h) {
     if (torn) { size_t m = n > 4096 ? (n / 2 / 4096) * 4096 : n / 2; if (m) { ssize_t r = real(fd, buf, m, off); (void)r; } }
     _exit(137);
   }
@@ -85,29 +96,39 @@ ssize_t pwrite(int fd, const void *buf, size_t n, off_t off) { return do_pwrite(
 ssize_t pwrite64(int fd, const void *buf, size_t n, off_t off) { return do_pwrite(fd, buf, n, off); }
 int fsync(int fd) {
   static int (*real)(int) = 0; if (!real) real = dlsym(RTLD_NEXT, "fsync");
-  if (fd_under_prefix(fd) && hit("fsync", 0)) _exit(137);
+  int h = fd_under_prefix(fd) ? hit("fsync", 0, 0) : 0;
+  if (h == 2) return -1;
+  if (h) _exit(137);
   return real(fd);
 }
 int fdatasync(int fd) {
   static int (*real)(int) = 0; if (!real) real = dlsym(RTLD_NEXT, "fdatasync");
-  if (fd_under_prefix(fd) && hit("fdatasync", 0)) _exit(137);
+  int h = fd_under_prefix(fd) ? hit("fdatasync", 0, 0) : 0;
+  if (h == 2) return -1;
+  if (h) _exit(137);
   return real(fd);
 }
 static int do_ftruncate(int fd, off_t l) {
   static int (*real)(int, off_t) = 0; if (!real) real = dlsym(RTLD_NEXT, "ftruncate64");
   if (!real) real = dlsym(RTLD_NEXT, "ftruncate");
-  if (fd_under_prefix(fd) && hit("ftruncate", (long)l)) _exit(137);
+  int h = fd_under_prefix(fd) ? hit("ftruncate", (long)l, 1) : 0;
+  if (h == 2) return -1;
+  if (h) _exit(137);
   return real(fd, l);
 }
 int ftruncate(int fd, off_t l) { return do_ftruncate(fd, l); }
 int ftruncate64(int fd, off_t l) { return do_ftruncate(fd, l); }
 int unlink(const char *p) {
   static int (*real)(const char *) = 0; if (!real) real = dlsym(RTLD_NEXT, "unlink");
-  if (path_under_prefix(p) && hit("unlink", 0)) _exit(137);
+  int h = path_under_prefix(p) ? hit("unlink", 0, 0) : 0;
+  if (h == 2) return -1;
+  if (h) _exit(137);
   return real(p);
 }
 int rename(const char *a, const char *b) {
   static int (*real)(const char *, const char *) = 0; if (!real) real = dlsym(RTLD_NEXT, "rename");
-  if ((path_under_prefix(a) || path_under_prefix(b)) && hit("rename", 0)) _exit(137);
+  int h = (path_under_prefix(a) || path_under_prefix(b)) ? hit("rename", 0, 0) : 0;
+  if (h == 2) return -1;
+  if (h) _exit(137);
   return real(a, b);
 }
